@@ -50,6 +50,7 @@ type simStore struct {
 	mu    sync.Mutex
 	trace []*callRec
 	fired map[string]int
+	armedAt int
 }
 
 var errInjected = errors.New("simstore: injected storage driver failure")
@@ -73,6 +74,23 @@ func (s *simStore) begin(method, desc string, stream, write bool) (*callRec, *Fa
 	s.mu.Unlock()
 	sim.Point(-20)
 	return rec, f
+}
+
+// arm makes the next driver call (whatever its position) fail as f says; disarm removes the plan and reports
+// whether it fired. Used by harnesses that inject transient failures operation by operation.
+func (s *simStore) arm(f FaultSpec) {
+	s.mu.Lock()
+	f.Call = len(s.trace)
+	s.cfg.Faults = []FaultSpec{f}
+	s.armedAt = len(s.trace)
+	s.mu.Unlock()
+}
+
+func (s *simStore) disarm() bool {
+	s.mu.Lock()
+	defer s.mu.Unlock()
+	s.cfg.Faults = nil
+	return s.armedAt < len(s.trace) && s.trace[s.armedAt].Faulted != ""
 }
 
 func (s *simStore) fire(rec *callRec, kind string) {
